@@ -158,6 +158,12 @@ func Load(dir string, overlay map[string][]byte, patterns ...string) (*Prog, err
 		}
 		return a.Pos() < b.Pos()
 	})
+	if os.Getenv("OBSA_NO_DESPILL") == "" {
+		Despilled = 0
+		for _, fn := range p.Funcs {
+			despill(fn)
+		}
+	}
 	p.loadClosureAliases()
 	for _, fn := range p.Funcs {
 		p.byName[FnString(fn)] = fn
